@@ -156,6 +156,7 @@ def run_impl(sc):
     orc = []
     for c in sc['calls']:
         err = None
+        msg = ''
         try:
             if c[0] == 'joint':
                 add_fixed_joint(master=objs[c[1]], slave=objs[c[2]])
@@ -166,7 +167,8 @@ def run_impl(sc):
         except Exception as e:  # noqa
             n = type(e).__name__
             err = n if n in scen.EXN else 'Other:' + n
-        outs.append(dict(err=err, state=observe(objs)))
+            msg = str(e)[:200]
+        outs.append(dict(err=err, msg=msg, state=observe(objs)))
     for e in sc['elems']:                       # libm oracle: cos / tan of every declared angle
         for key, fns in (('pa', ('LCos',)), ('helix', ('LTan', 'LSin', 'LCos'))):
             if key in e:
